@@ -138,3 +138,22 @@ NOT_APPLICABLE = {
     "C19": "not yet built",
     "C20": "not yet built",
 }
+
+
+# what each bounded stand-in check does (crate /verif/bounded, built against /repo's working tree on every run); composed into
+# level_claimed.text / technique of every property that registers it in props.PROPS[...]["bounded_checks"]
+BOUNDED = {
+    "trans": "`bounded trans`: the real tau*, natural and mu translators (library API) are run on ~3300 (thorough: ~30000) guarded rules; every printed sentence is evaluated in 40 (160) sampled HT interpretations against an executable reference semantics of the rule (values of terms, ground instances) and natural/mu against tau*",
+    "simp": "`bounded simp`: `anthem simplify` is run for the 3 portfolios x 3 strategies on ~4200 (thorough: ~20000) formulas; each output is compared with its input in sampled HT (classical for the classic portfolio) interpretations under all assignments of the free variables over a small value set, only where both formulas are exactly evaluable; no new free variables; fixpoint output simplifies to itself; two processes print the same bytes",
+    "gamma": "`bounded gamma`: `anthem translate --with gamma` on the same corpus; HT satisfaction of F against classical satisfaction of gamma(F) in the h/t-coupled interpretation; the predicates of gamma(F) are exactly the h- and t-copies",
+    "strong": "`bounded strong`: `anthem verify --equivalence strong --no-proof-search --save-problems` on ~110 (thorough: ~1100) pairs of small programs under the flag combinations; the emitted TFF files are read by an independent parser/type checker and evaluated in sampled interpretations of the h-/t-copies: a problem is refuted iff h is included in t and the one program is satisfied and the other not (reference semantics), all flag combinations agree, preamble/symbol-order/transition axioms are true, every file is well-formed self-contained TFF with one conjecture",
+    "external": "`bounded external`: `anthem verify --equivalence external --no-proof-search --save-problems` on ~290 (thorough: ~1500) small tight tasks without arithmetic (program vs program, program vs specification, user-guide assumptions, proof outlines) under the flag combinations; the problems are evaluated in EVERY interpretation of the declared predicates over the inner values and compared with external behaviour computed by brute force (stable models by the reference semantics): a refuting interpretation is a behavioural difference, and every behavioural difference is refuted by some problem (with an outline: by some problem of that direction, lemma problems included); flag combinations agree; files are well-formed TFF; no panic",
+    "prover": "`bounded prover`: `anthem verify` with proof search and a fake `vampire` first on PATH that records its stdin and answers by schedule (Theorem, every other SZS word, no status line, crash, look-alike words such as EquivalentTheorem/TheoremX, one bad answer among good ones, no prover at all) with 1/3 (thorough: 1/3/8) instances: each saved problem is handed over exactly once and byte-identically, success is reported iff every answer was Theorem",
+    "files": "`bounded files`: 27 invocations of `anthem verify` with the same files given in different argument orders, inside directories (file-name order differing from creation order), directories before and after files, .spec/.ug/.po anywhere, an unrelated file: all must emit byte-identical problems; swapping the two programs swaps the forward and backward families",
+    "applic": "`bounded applic`: `anthem analyze --property tightness` on 28 programs against an independent computation of the positive dependency graph; 29 external-equivalence tasks at the border of the accepted class (non-tight, --bypass-tightness, private recursion through single/double negation, private choice head, input predicate in a head, overlapping declarations, assumptions over non-input predicates incl. same name at another arity, two sorts for a placeholder) and 19 proof outlines (each way a definition can be ill-formed), each refused one with an accepted neighbour: refused tasks must exit non-zero and emit nothing",
+    "crash": "`bounded crash`: every command (translate tau-star/natural/mu/gamma/completion, simplify, analyze, verify strong/external with programs, specifications, user guides and proof outlines) on ~150 unusual inputs (numerals at and beyond the limits of the integer type, arities beyond usize, 40-ary atoms, empty files, comments only, deep nesting, non-ASCII) and 6 (thorough: 40) deterministic mutations of each: exit status 0, 1 or 2 within 10 s, never a panic or signal",
+    "subst": "`bounded subst`: the real `Formula::substitute` (library API) on ~40000 (formula, variable, term) triples incl. terms that mention bound names: truth value of the result equals that of the formula with the variable assigned the term's value in sampled HT interpretations and assignments; free-variable equation; no panic on sort-compatible terms",
+}
+BOUNDED_PREFIX = (" BOUNDED STAND-IN (labelled bounded, never counted as proved; runs the compiled real code of the working tree on enumerated small inputs against "
+                  "executable oracles; a failing input it finds is reported as VIOLATION with the input in the replay file, otherwise the verdict is the deductive one): ")
+BOUNDED_TECHNIQUE = "; bounded stand-in on the compiled real code for what the contracts do not reach (crate /verif/bounded; labelled bounded)"
